@@ -370,6 +370,12 @@ def liveMem (lc : LiveCase) : TMem :=
 def liveCopy (lc : LiveCase) (ptraceOnly : Bool) (a n : Nat) : Option Bytes :=
   if n = 0 then none else if ptraceOnly then ptraceRead (liveMem lc) a n else copyFromProcess (liveMem lc) a n
 
+/-- the snapshot of the target's memory as a reader answering whole requests (for stacks: one lookup per request) -/
+def snapRead0 (mem : List (Nat × ByteArray)) (a n : Nat) : Option Bytes :=
+  match mem.find? (fun (s, b) => s ≤ a && a + n ≤ s + b.size) with
+  | some (s, b) => some (b.extract (a - s) (a - s + n)).toList
+  | none => none
+
 /-- C07 on a real dump -/
 def runLive07 (kv : List (String × String)) : IO Res := do
   let lc ← match ← loadLive kv with
@@ -431,6 +437,30 @@ def runLive07 (kv : List (String × String)) : IO Res := do
   for (s, z, rva) in stackStarts do
     if !ml.any (fun m => m.start == s && m.size == z && m.rva == rva) then
       return .propfail s!"thread stack [{s},+{z}) is not in the memory list" tags
+  -- (3') … and every thread for which the composed gathering model (Model/Gather.lean) records a stack has that region in
+  -- the memory list (a thread whose stack is not found at all would otherwise go unnoticed here)
+  do
+    let ms := aggregate none lc.maps
+    let n := lc.threads.length
+    let currPos := 32 + 12 * Src.numWriters + 4 + 48 * n
+    let gprincipal := lc.cfg.principal.bind (fun addr => (findMappingNoBias ms addr).map (fun m => (m.sysStart, m.sysEnd)))
+    let gcrash : Option CrashIn := if lc.cfg.crash.isSome then some ⟨greg lc.cfg.gregs REG_RSP, greg lc.cfg.gregs REG_RIP, []⟩ else none
+    let mut idx := 0
+    for t in lc.threads do
+      let i := idx
+      idx := idx + 1
+      let some exp := lc.thr.find? (fun e => e.tid == t.tid) | continue
+      if exp.spin then continue
+      match gatherThread ⟨ms, 4096, snapRead0 lc.mem⟩ ⟨lc.cfg.limit, lc.cfg.sanitize, lc.cfg.principal.isSome, gprincipal⟩
+          gcrash lc.cfg.blamed i n currPos ⟨t.tid, exp.rsp, exp.rip, []⟩ with
+      | .ok d =>
+        match d.stack with
+        | some (gs, gb) =>
+          if !ml.any (fun m => m.start == gs && m.size == gb.length) then
+            return .mismatch s!"thread #{i} ({t.tid}): the gathering model records the stack [{gs},+{gb.length}), the memory list has no such region (the thread's record says [{t.stackStart},+{t.stackSize}))" tags
+          tags := "stack.model" :: tags
+        | none => pure ()
+      | _ => tags := "stack.model.uncovered" :: tags
   -- (4) the window around the crash instruction pointer
   match lc.cfg.crash with
   | some c =>
